@@ -8,7 +8,8 @@
 //  hfilter.process   real part = input delayed by D = M/2 bit-exactly; imaginary part of a tone = tone shifted by
 //                    90 degrees (and delayed by D) within 1e-3 of its amplitude once the FIR is filled (k >= M-1)
 //  tuner.phase       r[k] = x[k] e^{2 pi i f k / fs} for every k of the stream (f k reduced modulo fs exactly in the
-//                    oracle), |.| <= 1e-9 |x[k]|; every f in [-fs/2, fs/2] must be accepted by the constructor
+//                    oracle), |.| <= 1e-9 |x[k]|; every f in [-fs/2, fs/2] must be accepted by the constructor; 7 framings
+//                    incl. frames longer than fs and 2 fs followed by further frames (several counter wraps per call)
 //
 // The property fixes only "real part = x" and "negative bins vanish"; the imaginary DC / Nyquist content of the
 // analytic signal is left free by the statement and is not checked.
@@ -423,7 +424,6 @@ static ld tuner_angle(const FExact& fe, long long k, int fs) {
 static void run_tuner(Ctx& ctx, bool T) {
     std::vector<int> fss = {8, 9, 100, 8000, 100000};
     if (T) fss = {8, 9, 10, 11, 100, 101, 8000, 44100, 48000, 100000};
-    const int cyc[] = {1, 2, 3, 5, 7, 11, 64, 1000};
     for (int fs : fss) {
         std::vector<double> fl;
         auto add = [&](double f) {
@@ -437,13 +437,22 @@ static void run_tuner(Ctx& ctx, bool T) {
             add(c);
             add(-c);
         }
-        const long long N = (fs <= 101 || T) ? (long long)std::ceil(3.5 * fs) : (long long)(2.5 * fs);
+        const long long N03 = (fs <= 101 || T) ? (long long)std::ceil(3.5 * fs) : (long long)(2.5 * fs);
+        // framings 0..2: one call / short frames / frames of exactly fs samples.  Framings 3..6: frames longer than fs and
+        // longer than 2 fs (several counter wraps inside ONE call) followed by further frames, stream of 9 fs + 17 > 8 fs
+        // samples - the state carried from one call to the next must account for every wrap made inside a call.
+        const long long F = fs;
+        const std::vector<std::vector<long long>> patterns = {
+            {N03}, {1, 2, 3, 5, 7, 11, 64, 1000}, {F}, {2 * F + 3, 1, F - 1, 3 * F + 1, 5}, {F + 1}, {3 * F}, {1, 4 * F + 2, 7}};
         for (double f : fl) {
             const bool fint = (f == std::floor(f));
-            for (int framing = 0; framing < 3; ++framing) {
+            for (int framing = 0; framing < (int)patterns.size(); ++framing) {
+                const long long N = framing < 3 ? N03 : 9 * F + 17;
+                const std::vector<long long>& pat = patterns[framing];
                 if (!ctx.take("tuner.phase", P().kv("fs", fs).kv("f", f).kv("fint", fint).kv("framing", framing))) continue;
                 GUARD_BEGIN
                 ctx.note(fint ? "tuner integer f" : "tuner fractional f");
+                ctx.note(framing < 3 ? "tuner framing: frames <= fs or single call" : "tuner framing: frames > fs / > 2 fs followed by more frames");
                 if (f != 0) ctx.nontrivial();
                 FExact fe = fexact(f);
                 if (fe.s > 100) {   // cannot happen for the candidate list (|f| >= 1e-3)
@@ -465,7 +474,7 @@ static void run_tuner(Ctx& ctx, bool T) {
                 std::string obs, exp;
                 bool sized = true;
                 while (pos < N && sized) {
-                    long long flen = framing == 0 ? N : (framing == 1 ? cyc[j++ % 8] : fs);
+                    long long flen = pat[(size_t)(j++) % pat.size()];
                     flen = std::min(flen, N - pos);
                     arr_cmplx x((int)flen);
                     for (long long i = 0; i < flen; ++i)
